@@ -292,7 +292,7 @@ pub fn run(ctx: &mut Ctx) {
     );
     ctx.extra.insert("exhaustive_over".into(), json!(format!("every pattern of every row with <= {} cells ({} ranges); all 3,796 tokens x {} weights", ctx.tier.pick(7, 13), sweep.len(), ws.len())));
     if ctx.tier == Tier::Thorough && !ctx.failed() {
-        crate::fuzzrun::campaign(ctx, "fz_range", 6000, 16, 400);
+        crate::fuzzrun::campaign(ctx, "fz_range", 1500, 16, 400);
     }
 }
 
